@@ -144,25 +144,44 @@ func genClaim(claim string) error {
 }
 
 func genParseBinaryOps(n *node, arg string) error {
-	l := genName(n.lhs)
-	r := genName(n.rhs)
+	l, lDup := genClaimName(n.lhs)
+	r, rDup := genClaimName(n.rhs)
 	key := keys[n.op]
 	if key == "" {
 		return fmt.Errorf("bad op %q", n.op)
 	}
 	fmt.Fprintf(&out, "op, %s, %s := parseBinaryOp(%s)\n", l, r, arg)
 	fmt.Fprintf(&out, "if op != t.ID%s { return errFailed }\n", key)
-	if l[0] == 't' {
+	// A variable that occurs more than once in the claim must match the same
+	// expression every time.
+	if lDup != "" {
+		fmt.Fprintf(&out, "if !%s.Eq(%s) { return errFailed }\n", l, lDup)
+	}
+	if rDup != "" {
+		fmt.Fprintf(&out, "if !%s.Eq(%s) { return errFailed }\n", r, rDup)
+	}
+	if isOp(n.lhs.op) {
 		if err := genParseBinaryOps(n.lhs, l); err != nil {
 			return err
 		}
 	}
-	if r[0] == 't' {
+	if isOp(n.rhs.op) {
 		if err := genParseBinaryOps(n.rhs, r); err != nil {
 			return err
 		}
 	}
 	return nil
+}
+
+// genClaimName is like genName but, for a variable that an earlier part of
+// the claim has already bound, it returns a fresh temporary name (and the
+// name of the earlier binding, to compare against) instead of rebinding it.
+func genClaimName(n *node) (name string, dup string) {
+	if isVariable(n.op) && names[n.op] {
+		nextTmp++
+		return fmt.Sprintf("t%d", nextTmp-1), "x" + n.op
+	}
+	return genName(n), ""
 }
 
 func genName(n *node) string {
